@@ -78,14 +78,14 @@ def is_integral(a):
 def _kind_is_number(eng, st, args, kwargs, origin):
     (a,) = args
     if isinstance(a, VC):
-        return [(st, VC(isinstance(a.py, (int, float)) and not isinstance(a.py, bool)))]
-    return [(st, VC(isinstance(a, (VInt, VFloat))))]
+        return [(st, VC(isinstance(a.py, (int, float))))]
+    return [(st, VC(isinstance(a, (VInt, VFloat, VBool))))]
 
 
 @uninterpreted(_kind_is_number)
 def is_plain_number(a):
-    """int or float, but not bool (True/False are rendered as words by the operand printer)."""
-    return isinstance(a, (int, float)) and not isinstance(a, bool)
+    """int, float or bool (IC10Operand.__init__ is under contract to store bools as 0/1) - not complex, str or None."""
+    return isinstance(a, (int, float))
 
 
 def install_math(world):
